@@ -1170,6 +1170,21 @@ func (w *c19World) reload(ck, sk int) bool {
 	r.Logf("reload %d: policies %s -> %s, draws %s -> %s (config load ok=%v, subnets load ok=%v)", w.step,
 		c19Digest(polBefore), c19Digest(polAfter), c19Digest(drawsBefore), c19Digest(drawsAfter), cfgOK, subOK)
 
+	// ---- the GeoIP part: whatever the reload did, the station must still have a database it can ask
+	// (every connection and every registration is looked up)
+	if pv, where := c19Catch(func() {
+		db := w.rm.GetGeoIP()
+		if db == nil {
+			panic("GetGeoIP() returns nil")
+		}
+		db.CC(net.IPv4(198, 51, 100, 7).To4())
+		db.ASN(net.IPv4(198, 51, 100, 7).To4())
+	}); pv != "" {
+		if r.Fail("C19/reload/geoip/unusable-after-reload", "reload %d: after the reload a GeoIP lookup panics (%s at %s): the reload left the station without a usable database", w.step, pv, where) {
+			return false
+		}
+	}
+
 	// ---- differential, part "address policies"
 	if !cfgOK {
 		r.Probe("reload_config_failed")
